@@ -5,3 +5,4 @@ pub mod json;
 pub mod jsonmut;
 pub mod text;
 pub mod yaml;
+pub mod yqprog;
